@@ -303,6 +303,9 @@ mod lake;
 mod pool;
 #[cfg(all(test, debug_assertions))]
 mod reentrancy;
+#[cfg(folo_verif)]
+#[doc(hidden)]
+pub mod verif;
 
 pub use core::*;
 
